@@ -700,15 +700,13 @@ def wide():
     for (c, r) in [(17, 2), (2, 17), (8, 8), (33, 2), (2, 33)]:
         add("C07", f"c07_remove_row_u8_wide_{c}x{r}", f"c07::remove_u8_b::<72>(true, {c}, {r})", max(c, r) + 3, Q if (c, r) in [(17, 2), (2, 17), (8, 8)] else T)
     add("C07", "c07_remove_col_u8_wide_8x8", "c07::remove_u8_b::<72>(false, 8, 8)", 11, T)
-    # sorts of 2 or 3 long lines (17 / 33 / 65 cells each): the permutation is small, the line is long
-    # (sorting 17 lines is beyond CBMC here: std's sort on 17 symbolic keys does not finish in 30 minutes)
+    # sorts of 2 long lines (17 cells each): the permutation is small, the line is long. (Sorting 17 lines is
+    # beyond CBMC here - std's sort on 17 symbolic keys does not finish in 30 minutes - and so are lines of 33
+    # and 65 cells, which exhaust its memory.)
     for e, nm in ROW_ENTRIES.items():
-        for (c, r) in [(2, 17), (3, 33), (2, 65)]:
-            add("C16", f"c16_{nm}_owned_long_{c}x{r}_l{r - 1}", f"c16::sort_long({e}, 0, {c}, {r}, 0, 0, {c}, {r}, {r - 1})", max(c, r) + 3, T, stubs=[SORT_STUB])
+        add("C16", f"c16_{nm}_owned_long_2x17_l16", f"c16::sort_long({e}, 0, 2, 17, 0, 0, 2, 17, 16)", 20, T, stubs=[SORT_STUB])
     for e, nm in COL_ENTRIES.items():
-        for (c, r) in [(17, 2), (33, 3), (65, 2)]:
-            add("C17", f"c17_{nm}_owned_long_{c}x{r}_l{c - 1}", f"c16::sort_long({e}, 0, {c}, {r}, 0, 0, {c}, {r}, {c - 1})", max(c, r) + 3, T, stubs=[SORT_STUB])
-    add("C17", "c17_sort_by_col_view_long_65x2_l64", "c16::sort_long(6, 1, 66, 2, 1, 0, 66, 2, 64)", 70, T, stubs=[SORT_STUB], also=["C04"])
+        add("C17", f"c17_{nm}_owned_long_17x2_l16", f"c16::sort_long({e}, 0, 17, 2, 0, 0, 17, 2, 16)", 20, T, stubs=[SORT_STUB])
     # 72-byte elements
     for op, nm in FAT_INPLACE.items():
         if op == 6:
